@@ -25,7 +25,7 @@ CLAUSES = {   # minimum = ~30 % of what a quick run evaluates
     "C11.rprob": 14000, "C11.roworder": 10000,
     "C11.xoprob.genpos": 3600, "C11.xoprob.start": 1800, "C11.xoprob.value": 3000,
     "C11.history.state": 2300, "C11.history.own": 1600, "C11.history.absent": 1600, "C11.history.linear": 1500,
-    "C11.history.order": 900, "C11.history.dist": 3200, "C11.history.spline_arg": 200,
+    "C11.history.order": 900, "C11.history.dist": 3200, "C11.history.spline_arg": 200, "C11.history.gmap": 1600,
 }
 HOOKS_REQUIRED = ["mapfn.post", "mapfn.post.internal"]
 RULE = ("seeded class-based generators.  mapfn family: distance arrays (uniform [0,3] M, cM-scale, tiny incl. denormals, "
@@ -36,7 +36,9 @@ RULE = ("seeded class-based generators.  mapfn family: distance arrays (uniform 
         "from_pandas or with auto_group=False, both map classes, int32/int64 labels; query sets with markers of the map, "
         "positions strictly between flanking markers, beyond the terminal markers, duplicates and absent chromosomes; maps "
         "produced by interp_gmap are re-used as maps when their rows qualify; both genotype-matrix classes (half of them "
-        "carrying stale positions/probabilities) for interp_genpos/interp_xoprob.  history family: one live map "
+        "carrying stale positions/probabilities) for interp_genpos/interp_xoprob.  Extended maps carry interval rows: vrnt_stop = start + extent with "
+        "point / unit / short / long (running over the following markers) / mixed extents, both in the map and in the variants "
+        "(optionally named, with function codes) handed to interp_gmap.  history family: one live map "
         "object of either class goes through 3-8 in-place steps (remove/select of markers or of a whole chromosome, reorder, "
         "sort, group, ungroup, re-assignment of vrnt_genpos in M or cM, build_spline with other kind / fill value, a sibling map "
         "constructed with spline=<the live map's dictionary>), and after every step its answers are judged against the reference "
@@ -59,6 +61,9 @@ ASSUME = [
     "vrnt_genpos) interpolation answers are judged only once build_spline has been called again; reorder/sort/group/ungroup do "
     "not invalidate it.  With a non-linear spline kind or an array fill value only own-marker and absent-chromosome answers "
     "are demanded (no queries beyond the terminal markers); edits always leave >= 2 markers per remaining chromosome",
+    "the physical position of a row / variant is vrnt_phypos; vrnt_stop (extended maps) is a label of the row that never "
+    "enters interpolation: a map derived by interp_gmap stores interp_genpos(chromosome, vrnt_phypos) and carries stop / name / "
+    "function code unchanged with their rows",
     "an exception on an in-domain call is a violation (the property promises values), key clause C11.returns",
     "a map returned by interp_gmap is itself a genetic map: when its rows qualify (>= 2 per chromosome, distinct physical "
     "positions, none missing) the own-marker law is demanded of it; the row order of that product is not fixed",
@@ -369,8 +374,27 @@ def gen_query(g, spec, nq=None):
     return numpy.array(qc, dtype=dt), numpy.array(qp, dtype="int64"), with_absent
 
 
+def gen_stop(g, ph):
+    """Inclusive end positions of variants that start at ``ph``: points, unit / short intervals, long intervals that run
+    over the following markers, or a mixture.  Returns (class, stop)."""
+    ph = numpy.asarray(ph, dtype="int64")
+    m = int(g.integers(0, 6))
+    if m == 0:
+        ext = numpy.zeros(len(ph), dtype="int64"); cls = "point variants (stop == start)"
+    elif m == 1:
+        ext = numpy.ones(len(ph), dtype="int64"); cls = "unit intervals"
+    elif m == 2:
+        ext = g.integers(0, 40, len(ph)); cls = "short intervals"
+    elif m == 3:
+        span = int(max(2, ph.max() - ph.min())) if len(ph) else 2
+        ext = g.integers(1, 2 * span + 2, len(ph)); cls = "long intervals"
+    else:
+        ext = g.choice([0, 0, 1, 2, 7, 1000, 250000], len(ph)); cls = "mixed intervals"
+    return cls, ph + numpy.asarray(ext, dtype="int64")
+
+
 def build(spec, clsname, perm, how):
-    """Construct the real map from the rows in order ``perm``."""
+    """Construct the real map from the rows in order ``perm`` (extended maps: interval ends from spec["stop"])."""
     from pybrops.popgen.gmap.StandardGeneticMap import StandardGeneticMap
     from pybrops.popgen.gmap.ExtendedGeneticMap import ExtendedGeneticMap
     cls = {"StandardGeneticMap": StandardGeneticMap, "ExtendedGeneticMap": ExtendedGeneticMap}[clsname]
@@ -378,16 +402,17 @@ def build(spec, clsname, perm, how):
     ph = spec["ph"][perm].astype("int64")
     ge = spec["ge"][perm] * (100.0 if spec["units"] == "cM" else 1.0)
     ext = clsname == "ExtendedGeneticMap"
+    stop = (spec["stop"][perm] if "stop" in spec else ph + 1).astype("int64")
     if how == "pandas":
         import pandas
         cols = {"chr": ch, "pos": ph, "gpos": ge}
         if ext:
-            cols["stop"] = ph + 1
+            cols["stop"] = stop
         return cls.from_pandas(pandas.DataFrame(cols), vrnt_genpos_col="gpos", vrnt_genpos_units=spec["units"])
     kw = {"auto_group": False} if how == "nogroup" else {}
     if ext:
         names = numpy.array(["m%d" % i for i in perm], dtype=object) if len(perm) % 2 else None
-        return cls(vrnt_chrgrp=ch, vrnt_phypos=ph, vrnt_stop=ph + 1, vrnt_genpos=ge, vrnt_name=names,
+        return cls(vrnt_chrgrp=ch, vrnt_phypos=ph, vrnt_stop=stop, vrnt_genpos=ge, vrnt_name=names,
                    vrnt_genpos_units=spec["units"], **kw)
     return cls(vrnt_chrgrp=ch, vrnt_phypos=ph, vrnt_genpos=ge, vrnt_genpos_units=spec["units"], **kw)
 
@@ -431,6 +456,11 @@ def case_map(ctx, c):
     if g.random() < 0.1:
         perm2 = numpy.arange(n)[::-1].copy()                 # exactly reversed
     qc, qp, with_absent = gen_query(g, spec)
+    gs = ctx.rng("map-stop", c)
+    scls, spec["stop"] = gen_stop(gs, spec["ph"])
+    qscls, qstop = gen_stop(gs, qp)
+    qname = numpy.array(["q%d" % i for i in range(len(qc))], dtype=object) if gs.random() < 0.5 else None
+    qfn = numpy.array([str(gs.choice(["H", "K", "U"])) for _ in range(len(qc))], dtype=object) if gs.random() < 0.3 else None
     gcls, units = spec["gcls"], spec["units"]
     ucls = "%s map/%s units" % (gcls, units)          # clauses that depend on the stored positions
     icls = "%s map" % gcls                             # everything else
@@ -438,7 +468,8 @@ def case_map(ctx, c):
     coords = [c, "map"]
     tab = spec["tab"]
     ctx.case("map:%s/%s/%s/%s/%s" % (clsname, gcls, units, how, "absent-chr query" if with_absent else "present-chr query"),
-             clsname, how, spec["ch"], spec["ph"], spec["ge"], units, perm, qc, qp)
+             clsname, how, spec["ch"], spec["ph"], spec["ge"], units, perm, qc, qp, spec["stop"], qstop)
+    ctx.sumnote("extended maps with interval rows: " + scls) if clsname == "ExtendedGeneticMap" else None
     if c % 97 == 0:
         ctx.sample({"class": clsname, "built": how, "map_class": gcls, "units": units, "rows_as_supplied": {
             "chr": spec["ch"][perm].tolist(), "phys": spec["ph"][perm].tolist(), "gen_M": spec["ge"][perm].tolist()},
@@ -458,7 +489,8 @@ def case_map(ctx, c):
         # ---- constructor state: canonical order whatever the row order (auto-grouped constructions)
         if how != "nogroup":
             st_ok = (numpy.array_equal(gm.vrnt_chrgrp, spec["ch"]) and numpy.array_equal(gm.vrnt_phypos, spec["ph"])
-                     and O.agree(gm.vrnt_genpos, spec["ge"], gscale)[0])
+                     and O.agree(gm.vrnt_genpos, spec["ge"], gscale)[0]
+                     and (clsname != "ExtendedGeneticMap" or numpy.array_equal(gm.vrnt_stop, spec["stop"])))
             ctx.check("C11.state.sorted", st_ok, S("group"), "stored rows == rows sorted by (chromosome, physical position), Morgans",
                       ucls, witness=dict(W, stored_chr=gm.vrnt_chrgrp, stored_phys=gm.vrnt_phypos, stored_gen=gm.vrnt_genpos),
                       coords=coords)
@@ -531,21 +563,33 @@ def case_map(ctx, c):
 
         # ---- interp_gmap
         if clsname == "ExtendedGeneticMap":
-            ok, im = guarded(ctx, S("interp_gmap"), icls, coords, lambda: gm.interp_gmap(qc, qp, qp + 1), WQ)
+            WQ = dict(WQ, map_stop=spec["stop"][perm], query_stop=qstop, query_name=qname, query_fncode=qfn)
+            ok, im = guarded(ctx, S("interp_gmap"), icls, coords, lambda: gm.interp_gmap(qc, qp, qstop, qname, qfn), WQ)
         else:
             ok, im = guarded(ctx, S("interp_gmap"), icls, coords, lambda: gm.interp_gmap(qc, qp), WQ)
         if ok:
             try:  # rows compared as a multiset: the property does not fix the row order of the product
                 oa = numpy.lexsort((numpy.asarray(im.vrnt_genpos, dtype=float), im.vrnt_phypos, im.vrnt_chrgrp))
                 ob = numpy.lexsort((qg, qp, qc))
+                if clsname == "ExtendedGeneticMap":   # interval ends (and labels) are part of a row: they break ties too
+                    oa = numpy.lexsort((numpy.asarray(im.vrnt_stop), numpy.asarray(im.vrnt_genpos, dtype=float), im.vrnt_phypos, im.vrnt_chrgrp))
+                    ob = numpy.lexsort((qstop, qg, qp, qc))
                 gm_ok = (type(im) is type(gm) and numpy.array_equal(numpy.asarray(im.vrnt_chrgrp)[oa], qc[ob])
                          and numpy.array_equal(numpy.asarray(im.vrnt_phypos)[oa], qp[ob])
                          and O.agree(numpy.asarray(im.vrnt_genpos, dtype=float)[oa], qg[ob], O.scale_of(qg))[0])
+                if gm_ok and clsname == "ExtendedGeneticMap":
+                    gm_ok = (numpy.array_equal(numpy.asarray(im.vrnt_stop)[oa], qstop[ob])
+                             and ((im.vrnt_name is None) == (qname is None)) and ((im.vrnt_fncode is None) == (qfn is None)))
+                    if gm_ok and len(set(zip(qc.tolist(), qp.tolist(), qstop.tolist()))) == len(qc):   # labels checkable without ties
+                        gm_ok = ((qname is None or list(numpy.asarray(im.vrnt_name)[oa]) == list(qname[ob]))
+                                 and (qfn is None or list(numpy.asarray(im.vrnt_fncode)[oa]) == list(qfn[ob])))
             except Exception:
                 gm_ok = False
+            gcls_ = icls if clsname != "ExtendedGeneticMap" else "%s/%s" % (
+                icls, "interval variants (stop != start)" if numpy.any(qstop != qp) else "point variants (stop == start)")
             ctx.check("C11.interp.gmap", gm_ok, S("interp_gmap"), "interpolated map carries the query rows with interp_genpos positions",
-                      icls, witness=dict(WQ, got_chr=getattr(im, "vrnt_chrgrp", None), got_phys=getattr(im, "vrnt_phypos", None),
-                                         got_gen=getattr(im, "vrnt_genpos", None), expected_gen=qg), coords=coords)
+                      gcls_, witness=dict(WQ, got_chr=getattr(im, "vrnt_chrgrp", None), got_phys=getattr(im, "vrnt_phypos", None),
+                                         got_gen=getattr(im, "vrnt_genpos", None), got_stop=getattr(im, "vrnt_stop", None), expected_gen=qg), coords=coords)
 
             # the product is itself a genetic map: when its rows qualify as one (>= 2 rows per chromosome, distinct physical
             # positions, nothing missing) it must interpolate its own rows to its stored positions
@@ -811,6 +855,8 @@ def judge_history(ctx, g, gm, h, model, orig_labels, coords, W):
         sc, sp, sg = numpy.asarray(gm.vrnt_chrgrp), numpy.asarray(gm.vrnt_phypos), numpy.asarray(gm.vrnt_genpos, dtype=float)
         o = numpy.lexsort((sp, sc))
         st_ok = (len(sc) == len(mc) and numpy.array_equal(sc[o], mc) and numpy.array_equal(sp[o], mp) and O.agree(sg[o], mg, gscale)[0])
+        if st_ok and hasattr(gm, "vrnt_stop"):       # extended maps: the interval end stays attached to its row
+            st_ok = numpy.array_equal(numpy.asarray(gm.vrnt_stop)[o], numpy.array([h["stopm"][(int(a), int(b))] for a, b in zip(mc, mp)]))
         if st_ok and gm.is_grouped():
             labs = numpy.array(sorted(tab), dtype="int64"); lens = numpy.array([len(tab[int(x)][0]) for x in labs], dtype="int64")
             stix = numpy.r_[0, numpy.cumsum(lens)[:-1]]
@@ -888,6 +934,24 @@ def judge_history(ctx, g, gm, h, model, orig_labels, coords, W):
                 bad = {"chromosome": lab, "phys": allp[o][int(v[0]):int(v[0]) + 2], "gen": allg[o][int(v[0]):int(v[0]) + 2]}
         check("C11.history.order", bad is None, S("build_spline"), "order preserving along a chromosome (current markers as anchors)",
                   icls, witness=dict(WQ, got=qg, pair=bad), coords=coords)
+    # ---- map derived from the live map for these variants (extended maps: variants are intervals [phys, stop])
+    qstop = gen_stop(h["gs"], qp)[1]
+    if hasattr(gm, "vrnt_stop"):
+        ok, im = guarded(ctx, S("interp_gmap"), icls, coords, lambda: gm.interp_gmap(qc, qp, qstop), dict(WQ, query_stop=qstop))
+    else:
+        ok, im = guarded(ctx, S("interp_gmap"), icls, coords, lambda: gm.interp_gmap(qc, qp), WQ)
+    if ok:
+        try:
+            oa = numpy.lexsort((numpy.asarray(im.vrnt_genpos, dtype=float), im.vrnt_phypos, im.vrnt_chrgrp)); ob = numpy.lexsort((qg, qp, qc))
+            rg = numpy.where(known | ab, exp, qg)     # reference positions where the property fixes them
+            g_ok = (numpy.array_equal(numpy.asarray(im.vrnt_chrgrp)[oa], qc[ob]) and numpy.array_equal(numpy.asarray(im.vrnt_phypos)[oa], qp[ob])
+                    and O.agree(numpy.asarray(im.vrnt_genpos, dtype=float)[oa], rg[ob], O.scale_of(qg))[0])
+        except Exception:
+            g_ok = False
+        check("C11.history.gmap", g_ok, S("interp_gmap"), "derived map stores the positions interpolated at its markers' physical positions",
+              icls + ("/interval variants" if hasattr(gm, "vrnt_stop") and numpy.any(qstop != qp) else ""),
+              witness=dict(WQ, query_stop=qstop, got_chr=getattr(im, "vrnt_chrgrp", None), got_phys=getattr(im, "vrnt_phypos", None),
+                           got_gen=getattr(im, "vrnt_genpos", None), expected_gen=qg), coords=coords)
     # ---- distances from physical positions == reference distances of the interpolated positions
     o = numpy.lexsort((qp, qc)); pc, pp, pg = qc[o], qp[o], qg[o]
     ok, d1 = guarded(ctx, S("gdist1p"), icls, coords, lambda: gm.gdist1p(pc, pp), WQ)
@@ -916,10 +980,13 @@ def case_history(ctx, c):
     coords = [c, "history"]
     n = len(spec["ch"])
     perm = g.permutation(n)
+    gs = ctx.rng("history-stop", c)
+    _, spec["stop"] = gen_stop(gs, spec["ph"])
+    stopm = {(int(a), int(b)): int(x) for a, b, x in zip(spec["ch"], spec["ph"], spec["stop"])}
     model = {(int(a), int(b)): float(x) for a, b, x in zip(spec["ch"], spec["ph"], spec["ge"])}
     orig_labels = sorted(set(int(x) for x in spec["ch"]))
     h = {"dropped_by": None, "last_edit": "construction", "rebuilt": False, "fresh": True, "kind": "linear", "fill": "extrapolate",
-         "log": [], "orig_phys": numpy.unique(spec["ph"])}
+         "log": [], "orig_phys": numpy.unique(spec["ph"]), "stopm": stopm, "gs": gs}
     nsteps = int(g.integers(3, 9))
     ctx.case("history:%s/%s/%s/%d chromosomes" % (clsname, spec["gcls"], how, len(orig_labels)), clsname, how, spec["ch"], spec["ph"],
              spec["ge"], spec["units"], perm, nsteps)
@@ -1030,6 +1097,7 @@ def case_history(ctx, c):
                 sch = numpy.array([k[0] for k in keys], dtype="int64"); sph = numpy.array([k[1] for k in keys], dtype="int64")
                 sge = numpy.array([model[k] for k in keys]) * 3.0 + 0.5
                 sp_ = g.permutation(len(keys))
+                sstop = gen_stop(h["gs"], sph)[1]
                 h["log"].append("sibling = %s(rows of chromosomes %s with other positions, spline=live.spline)" % (clsname, sub))
                 qc0, qp0, _ = gen_query(g, {"tab": O.table(*model_arrays(model))})
                 if h["kind"] in NONLINEAR or h["fill"] != "extrapolate":
@@ -1041,7 +1109,7 @@ def case_history(ctx, c):
 
                 def mk():
                     if clsname == "ExtendedGeneticMap":
-                        return cls(vrnt_chrgrp=sch[sp_], vrnt_phypos=sph[sp_], vrnt_stop=sph[sp_] + 1, vrnt_genpos=sge[sp_], spline=gm.spline)
+                        return cls(vrnt_chrgrp=sch[sp_], vrnt_phypos=sph[sp_], vrnt_stop=sstop[sp_], vrnt_genpos=sge[sp_], spline=gm.spline)
                     return cls(vrnt_chrgrp=sch[sp_], vrnt_phypos=sph[sp_], vrnt_genpos=sge[sp_], spline=gm.spline)
                 ok, sib = guarded(ctx, clsname + ".__init__", "spline= dictionary of another map", coords, mk, dict(W, history=list(h["log"])))
                 if not ok:
